@@ -636,7 +636,8 @@ pub struct ReplayFile {
 }
 
 pub fn write_replay<W: World>(verif_dir: &str, world: &Arc<W>, verif_seed: u64, run: u64, case: &W::Case, v: &Violation, original: &W::Case, tried: usize) -> String {
-    let dir = format!("{verif_dir}/replays");
+    // VERIF_OUT_DIR redirects replays and evidence (used for sensitivity experiments on scratch copies)
+    let dir = format!("{}/replays", std::env::var("VERIF_OUT_DIR").unwrap_or_else(|_| verif_dir.to_string()));
     let _ = std::fs::create_dir_all(&dir);
     let path = format!("{dir}/{}-{}-{}.json", world.property(), verif_seed, run);
     let rf = ReplayFile {
@@ -744,7 +745,7 @@ pub fn write_evidence<W: World>(world: &Arc<W>, res: &BatchResult<W::Case>, inp:
         "wall_s": inp.wall_s,
         "violations": inp.violations,
     });
-    let dir = format!("{}/evidence", inp.verif_dir);
+    let dir = format!("{}/evidence", std::env::var("VERIF_OUT_DIR").unwrap_or_else(|_| inp.verif_dir.to_string()));
     let _ = std::fs::create_dir_all(&dir);
     let path = format!("{dir}/{}.json", world.property());
     let s = serde_json::to_string_pretty(&ev).unwrap_or_default();
